@@ -44,6 +44,8 @@ def main():
     sizes = lambda b: [b["L"]] * b["NC"]
 
     def build(beh, k0):
+        if run.thorough:
+            beh = beh[run.seed % 2::2]      # all ranges are queried on every file: a seeded half of the thorough enumeration per run (time)
         cases = make_cases(beh, "bb", sizes, run, allq=1, k0=k0)
         for k, c in enumerate(cases):
             c["cached"] = k % 2        # every other file: all queries in sequence through one caching reader
